@@ -196,6 +196,18 @@ pub mod strext {
     }
 }
 pub use crate::strext::StrExt;
+pub mod optext {
+    use vstd::prelude::*;
+    verus! {
+    // Option<String>::as_deref()  (rule T-STR renames the call): the same text, borrowed
+    pub trait OptStrExt { fn as_deref_str(&self) -> Option<&str>; }
+    impl OptStrExt for Option<String> {
+        #[verifier::external_body]
+        fn as_deref_str(&self) -> (r: Option<&str>) ensures match r { Some(s) => *self matches Some(t) && s@ == t@, None => *self is None } { self.as_deref() }
+    }
+    }
+}
+pub use crate::optext::OptStrExt;
 verus! {
 // std::net::IpAddr as an opaque value with its classification predicates
 #[verifier::external_type_specification]
